@@ -745,7 +745,8 @@ func (ls *LState) formattedFrameFuncName(fr *callFrame) string {
 	if ischunk {
 		return name
 	}
-	if name[0] != '(' && name[0] != '<' {
+	// (a function reached through the key "" has an empty name)
+	if name == "" || (name[0] != '(' && name[0] != '<') {
 		return fmt.Sprintf("function '%s'", name)
 	}
 	return fmt.Sprintf("function %s", name)
